@@ -18,6 +18,9 @@ def _dangling_key(reg):
         return "dangling:registered-node-not-in-tree:nested-parse-result-discarded"
     if x.parent is not None and isinstance(x, (nodes.topic, nodes.pending)) and ("contents" in x.get("classes", []) or isinstance(x, nodes.pending)):
         return "dangling:registered-node-not-in-tree:contents-removed-by-docutils-transform"
+    if x.parent is not None and isinstance(x, nodes.field_list) and isinstance(x.parent, nodes.document) and any(isinstance(c, nodes.docinfo) for c in x.parent.children):
+        # docutils' DocInfo transform turned the leading field list into <docinfo> and dropped the list node (with the target propagated onto it)
+        return "dangling:registered-node-not-in-tree:field-list-replaced-by-docinfo-transform"
     return f"dangling:registered-node-not-in-tree:{reg.tagname}:detached-{x.tagname}" + ("" if x.parent is None else ":removed-from-" + x.parent.tagname)
 
 
